@@ -186,6 +186,17 @@ func H_C20_skips() {
 	vxrt.Flag("test.run", "")
 	vxrt.Flag("test.count", "1")
 	names := []string{"TestP", "TestP/child", "TestQ"}
+	if vxrt.Bool("a-used-file-holds-entries-of-the-sub-tests") {
+		// Clean examines a file in use that holds entries of TestP's sub-tests: looking at them does
+		// not count as skipping
+		dir := vxrt.Dir()
+		vxWriteFile(dir+"/f.snap", vxFrame("TestR - 1", "r")+vxFrame("TestP/child - 1", "c")+vxFrame("TestP/child - 2", "c2")+vxFrame("TestP/kid/deep - 1", "d"))
+		c := WithConfig(Dir(dir), Filename("f"), Update(false))
+		tr := vxNewT("TestR")
+		c.MatchSnapshot(tr, "r")
+		tr.end()
+		vxrt.Assert(len(tr.errors) == 0, "setup:passes")
+	}
 	k := vxrt.Len("skip-calls", 1, vxrt.Param("skips", 3))
 	for s := 0; s < k; s++ {
 		t := vxNewT(names[vxrt.Choice("who", len(names))])
